@@ -198,6 +198,31 @@ def run(ctx: Context, rep) -> None:
                construct="no break/continue/return in the read loop",
                message="the whole file is consumed")
 
+    # the read buffer is private to the call
+    bufs = set()
+    for c in ast.walk(hc.node):
+        if isinstance(c, ast.Call) and isinstance(
+                c.func, ast.Attribute) and c.func.attr == "readinto" and c.args:
+            bufs.add(dotted(c.args[0]))
+    for b in sorted(x for x in bufs if x):
+        defs = [n for n in hc.body_nodes() if isinstance(n, (ast.Assign,
+                                                             ast.AnnAssign))
+                and dotted(n.targets[0] if isinstance(n, ast.Assign)
+                           else n.target) == b]
+        fresh = len(defs) == 1 and isinstance(defs[0].value, ast.Call) and any(
+            isinstance(x, ast.Call) and isinstance(x.func, ast.Name) and
+            x.func.id == "bytearray" for x in ast.walk(defs[0].value)) and \
+            not any(isinstance(a, (ast.For, ast.While))
+                    for a in __import__("sa.model", fromlist=["ancestors"]
+                                        ).ancestors(defs[0]))
+        rep.ob("C16.feed", fresh, loc=hc.loc(defs[0]) if defs else hc.loc(),
+               where=hc.qualname,
+               construct=f"{b} = " + (short(defs[0].value) if defs else
+                                      "<not a local of this function>"),
+               message="the read buffer is a fresh local allocation of this "
+               "call (a shared/module-level buffer lets concurrent calls hash "
+               "each other's bytes)")
+
     # ---------------------------------------------------------------------
     rep.rule(
         "C16.out",
@@ -341,6 +366,9 @@ SELFTESTS = [
     dict(rule="C16.feed", name="read-idiom-twin", expect="silent", path=_U,
          old="        for i in iter(lambda: hashed_file.readinto(memory_view), 0):\n            # Update all hashes.\n            for hash_function in hash_functions:\n                hash_function.update(memory_view[:i])\n",
          new="        for chunk in iter(lambda: hashed_file.read(131072), b\"\"):\n            for hash_function in hash_functions:\n                hash_function.update(chunk)\n"),
+    dict(rule="C16.feed", name="shared-module-buffer", expect="fire", path=_U,
+         edits=[dict(path=_U, old="    memory_view = memoryview(bytearray(128 * 1024))\n", new=""),
+                dict(path=_U, old="def hash_checksums(file_path: Path,", new="memory_view = memoryview(bytearray(128 * 1024))\n\n\ndef hash_checksums(file_path: Path,")]),
     dict(rule="C16.feed", name="text-mode", expect="fire", path=_U,
          old='    with open(file_path, "rb", buffering=0) as hashed_file:',
          new='    with open(file_path, "r") as hashed_file:'),
